@@ -112,8 +112,8 @@ ENUM_SPECS = [
 
 def enum_phase(ctx):
     names = [n for n in ops.OPS if n not in ("helper", "enter", "exit", "tolerance", "inplace_meta", "optimize", "repair")]
-    prefix = [{"op": "add_cons", "name": 0, "rxns": [1], "coefs": [1, 1], "b": (None, 5)}, {"op": "add_var", "name": 0, "b": (0, 10), "kind": "continuous"}]
-    cases_ = (c for k, c in enumerate(ops.pair_cases(1, ENUM_SPECS, names, in_block=False, per_name=ctx.params["per_name"], prefix=prefix))
+    cases_ = (c for k, c in enumerate(ops.pair_cases(1, ENUM_SPECS, names, in_block=False, per_name=ctx.params["per_name"],
+                                                     prefixes=ops.ENUM_PREFIXES, length=ctx.params.get("length", 2)))
               if k % ctx.n_shards == ctx.shard)
     done = ctx.run_enumeration(cases_, check_case, "history")
     ctx.exhaustive = bool(done)
@@ -128,7 +128,8 @@ def phases(tier):
         return [Phase("hyp", hyp_phase, shards=8, params={"max_examples": 500, "max_ops": 30, "budget_s": 75, "crash_journal": True}),
                 Phase("pairs", enum_phase, shards=8, params={"per_name": 2, "budget_s": 75, "crash_journal": True})]
     return [Phase("hyp", hyp_phase, shards=16, params={"max_examples": 1200, "max_ops": 50, "budget_s": 400, "crash_journal": True}),
-            Phase("pairs", enum_phase, shards=16, params={"per_name": 3, "budget_s": 300, "crash_journal": True})]
+            Phase("pairs", enum_phase, shards=16, params={"per_name": 3, "budget_s": 300, "crash_journal": True}),
+            Phase("triples", enum_phase, shards=16, params={"per_name": 1, "length": 3, "budget_s": 300, "crash_journal": True})]
 
 
 CHECKS = {"history": check_case}
